@@ -1,4 +1,6 @@
 import BfeVerif.C45.Proofs
+import BfeVerif.C45.HelloRtCH
+import BfeVerif.C45.MoreRt
 /-!
   C45 — TLS handshake messages round-trip and parse safely.  Property theorems only.
 
@@ -51,7 +53,62 @@ theorem C45_total_certificate (d : Bytes) : umCertificate d ≠ .crash := by
       · simp
     · simp
 
+/-- clientHello (all extensions bfe handles: server_name, NPN, status_request, supported_curves, ec_point_formats,
+    session_ticket, signature_algorithms, 0xff02, ALPN, padding; unknown ones skipped): no byte string makes
+    unmarshal index out of range — including the server_name loop, which walks `data[2:]` beyond the extension. -/
+theorem C45_total_clientHello (d : Bytes) : umClientHello d ≠ .crash := umClientHello_total d
+
+theorem C45_total_serverHello (d : Bytes) : umServerHello d ≠ .crash := umServerHello_total d
+
+theorem C45_total_certificateRequest (has : Bool) (d : Bytes) : umCertReq has d ≠ .crash := umCertReq_total has d
+
+theorem C45_total_nextProto (d : Bytes) : umNextProto d ≠ .crash := umNextProto_total d
+
+theorem C45_total_certificateVerify (has : Bool) (d : Bytes) : umCertificateVerify has d ≠ .crash :=
+  umCertificateVerify_total has d
+
 /-! ### round trip -/
+
+/-- serverHello: every message within the wire limits (`ServerHello.wf`: 32-byte random, session id ≤ 32,
+    NPN/ALPN names of 1..255 bytes, no protocol list without the NPN flag, extensions < 64 KiB) parses back to itself. -/
+theorem C45_rt_serverHello (m : ServerHello) (hwf : m.wf = true) : umServerHello (mServerHello m) = .ok m :=
+  umServerHello_rt m hwf
+
+/-- clientHello, exact: what comes back is the message with the two parse-only fields filled in
+    (`extensionIds` in wire order, `padding = false`) and `secureRenegotiation` = "the SCSV suite 0x00ff is listed". -/
+theorem C45_rt_clientHello_exact (m : ClientHello) (hwf : m.wf = true) :
+    umClientHello (mClientHello m) = .ok (chParsedBack m) := umClientHello_rt m hwf
+
+/-- The full-strength round trip for clientHello: every field that marshal writes is read back.
+    FALSE for the unchanged code (`C45_witness_clientHello_reneg`). -/
+def ClientHelloRoundTrips : Prop :=
+  ∀ m : ClientHello, m.wf = true →
+    umClientHello (mClientHello m) = .ok { m with padding := false, extensionIds := chIds m }
+
+/-- clientHello round trip for every message whose `secureRenegotiation` flag agrees with the presence of the
+    SCSV suite (the only way the parser learns it). -/
+theorem C45_rt_clientHello_partial (m : ClientHello) (hwf : m.wf = true)
+    (hre : m.secureRenegotiation = hasScsv m.cipherSuites) :
+    umClientHello (mClientHello m) = .ok { m with padding := false, extensionIds := chIds m } := by
+  rw [umClientHello_rt m hwf]
+  congr 1
+  obtain ⟨vers, random, sid, suites, comp, npn, sni, ocsp, curves, points, tok, ticket, sigs, reneg, alpn, pad, ids⟩ := m
+  simp only at hre
+  simp [chParsedBack, hre]
+
+def renegHello : ClientHello :=
+  { vers := (3, 3), random := List.replicate 32 0, cipherSuites := [(0xc0, 0x2f)], compressionMethods := [0],
+    secureRenegotiation := true }
+
+/-- **C45_witness_clientHello_reneg.**  A clientHello that announces secure renegotiation with the
+    renegotiation_info extension (as bfe's own client does) comes back with `secureRenegotiation = false`:
+    marshal writes extension 0xff01, unmarshal's switch tests `extensionRenegotiationInfo + 1` = 0xff02. -/
+theorem C45_witness_clientHello_reneg : ¬ ClientHelloRoundTrips := by
+  intro h
+  have h1 := h renegHello (by decide)
+  rw [umClientHello_rt renegHello (by decide)] at h1
+  revert h1
+  decide
 
 theorem C45_rt_finished (v : Bytes) : umFinished (mFinished v) = .ok v := by
   unfold umFinished mFinished
@@ -98,7 +155,21 @@ theorem C45_rt_certificateVerify (has : Bool) (hash sig : UInt8) (s : Bytes) (h 
   · simp [len3, len2, require_bind, idx_bind, tail_bind, tail, u24_bytes, u16_bytes, h, show 2 + s.length + 2 < 16777216 by omega]
     res_rt
 
+theorem C45_rt_nextProto (p : Bytes) (hp : p.length ≤ 255) : umNextProto (mNextProto p) = .ok p :=
+  umNextProto_rt p hp
+
+/-- certificateRequest (1..255 certificate types, signature algorithms only with hasSignatureAndHash, CA names < 64 KiB) -/
+theorem C45_rt_certificateRequest (has : Bool) (m : CertReq) (hwf : m.wf has = true) :
+    umCertReq has (mCertReq has m) = .ok m := umCertReq_rt has m hwf
+
+/-- certificate lists without empty certificates (an empty LAST certificate is rejected by the parser, see below) -/
+theorem C45_rt_certificate (cs : List Bytes) (hok : certsOK cs = true) (hl : (certBody cs).length + 3 < 16777216) :
+    umCertificate (mCertificate cs) = .ok cs := umCertificate_rt cs hok hl
+
 /-! ### non-vacuity / concrete checks -/
+example : renegHello.wf = true := by decide
+example : ({ random := List.replicate 32 7, nextProtoNeg := true, nextProtos := [[104, 50]], alpnProtocol := [104, 50] } : ServerHello).wf = true := by decide
+example : ({ certificateTypes := [1, 64], signatureAndHashes := [(4, 1)], certificateAuthorities := [[1, 2, 3]] } : CertReq).wf true = true := by decide
 example : umNewSessionTicket (mNewSessionTicket [1, 2, 3]) = .ok [1, 2, 3] := by decide
 example : umCertificate (mCertificate [[1, 2], [3]]) = .ok [[1, 2], [3]] := by decide
 example : umNextProto (mNextProto [104, 50]) = .ok [104, 50] := by decide
